@@ -233,3 +233,90 @@ Proof.
     destruct (hfit d ck cl wc c regs (simulate x)) as [r1 o1]. simpl in *. rewrite E. reflexivity.
   - rewrite (hfit_is_model_fit d ck cl wc c regs (simulate x) H). reflexivity.
 Qed.
+
+(* ------------------------------------------------------------------ the judge of the history case files
+   (Model.FitnessHist.hist_violation_steps: every step against the history-free specification, equal vectors
+   get equal values, data unchanged) is MET by the model: on the observations the model itself produces for
+   any history it reports nothing.  The per-step fact "the stateless model meets spec_fit" enters as the
+   hypothesis `step_ok` (Proofs/FitnessMeets.v proves it outside the classes of the open findings). *)
+Lemma Qeq_bool_refl : forall x, Qeq_bool x x = true.
+Proof. intros x. apply Qeq_bool_iff. reflexivity. Qed.
+
+Lemma q_close_refl : forall x, q_close x x = true.
+Proof.
+  intros x. unfold q_close. apply Qle_bool_iff.
+  assert (E : x - x == 0) by ring. rewrite E. simpl Qabs.
+  apply Qmult_le_0_compat; [apply Qabs_nonneg | discriminate].
+Qed.
+
+Lemma fobs_agree_refl : forall ex e, fobs_agree ex e e = true.
+Proof.
+  intros ex [| | |q|]; simpl; try reflexivity.
+  destruct ex; [apply Qeq_bool_refl | apply q_close_refl].
+Qed.
+
+Lemma fobs_same_refl : forall e, fobs_same e e = true.
+Proof. intros [| | |q|]; simpl; try reflexivity. apply Qeq_bool_refl. Qed.
+
+Section JudgeMet.
+  Variable ck : checker.
+  Variable cl : calls.
+  Variable wc : wconf.
+  Variable c : fconf.
+  Variable G : hx -> Prop.          (* the decision vectors of the history *)
+
+  (* the stateless model meets the history-free specification at every vector of the history *)
+  Hypothesis step_ok : forall x e, G x -> spec_fit c (snd x) = Some e -> model_fit ck cl wc c (snd x) = e.
+  (* equal identifiers name the same vector (the same frames) *)
+  Hypothesis ids_functional : forall x y, G x -> G y -> fst x = fst y -> snd x = snd y.
+
+  Definition op_good (o : hop hx) : Prop := match op_x o with Some x => G x | None => True end.
+  Definition pure (o : hop hx) : option fobs := pure_obs (@snd nat (list frame3)) ck cl wc c o.
+  Definition entry_good (e : hop hx * option fobs) : Prop := op_good (fst e) /\ snd e = pure (fst e).
+
+  Lemma step_spec_ok : forall o, op_good o -> step_spec_bad c o (pure o) = false.
+  Proof.
+    intros o Ho. unfold step_spec_bad, pure, op_good in *.
+    destruct o as [x|x|]; simpl in *; try reflexivity;
+      destruct (spec_fit c (snd x)) as [e|] eqn:E; try reflexivity;
+      rewrite (step_ok x e Ho E); rewrite fobs_agree_refl; reflexivity.
+  Qed.
+
+  Lemma seen_other_none : forall x earlier, G x -> Forall entry_good earlier ->
+    seen_other (fst x) (model_fit ck cl wc c (snd x)) earlier = false.
+  Proof.
+    intros x earlier Gx. induction earlier as [|[o ob] t IH]; intros F; [reflexivity|].
+    inversion F as [|? ? [Hg Hp] Ft]; subst. simpl in Hg, Hp. simpl.
+    rewrite (IH Ft), orb_false_r.
+    unfold op_good in Hg. unfold pure in Hp.
+    destruct o as [y|y|]; simpl in *; subst ob; try reflexivity;
+      destruct (Nat.eqb (fst y) (fst x)) eqn:E; try reflexivity;
+      apply Nat.eqb_eq in E; rewrite (ids_functional y x Hg Gx E); rewrite fobs_same_refl; reflexivity.
+  Qed.
+
+  Lemma hist_bad_steps_none : forall l i earlier,
+    Forall op_good l -> Forall entry_good earlier ->
+    hist_bad_steps c i earlier (combine l (map pure l)) = [].
+  Proof.
+    induction l as [|o r IH]; intros i earlier Fl Fe; [reflexivity|].
+    inversion Fl as [|? ? Ho Fr]; subst.
+    simpl. rewrite (step_spec_ok o Ho). simpl.
+    assert (S : match op_x o, pure o with
+                | Some x, Some v => seen_other (fst x) v earlier
+                | _, _ => false end = false).
+    { unfold pure. destruct o as [x|x|]; simpl; try reflexivity; apply seen_other_none; try exact Fe; exact Ho. }
+    rewrite S. simpl. apply IH; [exact Fr|].
+    constructor; [split; [exact Ho|reflexivity] | exact Fe].
+  Qed.
+
+  Theorem model_history_meets_spec : forall d ops regs,
+    exits_free d = true -> Forall op_good ops ->
+    hist_violation_steps {| hc_c := c; hc_ops := ops;
+                            hc_obs := snd (run_hist (@snd nat (list frame3)) d ck cl wc c regs ops);
+                            hc_same := true |} = [].
+  Proof.
+    intros d ops regs Hd Fo. unfold hist_violation_steps. cbn [hc_c hc_ops hc_obs hc_same app].
+    rewrite (history_is_model_fit (nat * list frame3)%type (@snd nat (list frame3)) d ck cl wc c Hd ops regs).
+    apply hist_bad_steps_none; [exact Fo | constructor].
+  Qed.
+End JudgeMet.
